@@ -24,7 +24,7 @@ RULE = (
     "the default method fail return exactly the node's attractors (inside the node, in no successor); non-trivial = a complex "
     "attractor inside a node with >=1 fixed variable"
 )
-OPS = ops.PLAIN_OPS + ("cands", "seeds", "sets", "sets", "seeds", "reclaim", "allseeds", "succ", "expsets", "expcands", "expseeds")
+OPS = ops.PLAIN_OPS + ("cands", "seeds", "sets", "sets", "seeds", "reclaim", "allseeds", "succ", "expsets", "expcands", "expseeds", "scc", "block")
 
 
 @st.composite
